@@ -210,13 +210,33 @@ Qed.
 Lemma coordinators_storage : forall c, In CStorage (coordinators c).
 Proof. intro c. unfold coordinators. destruct (have_notifiers c); simpl; tauto. Qed.
 
+Lemma coord_eqb_refl : forall k, coord_eqb k k = true.
+Proof. destruct k; reflexivity. Qed.
+
+Lemma filter_stopped : forall (l stopped : list coord), (forall k, In k l -> In k stopped) ->
+  filter (fun k => negb (existsb (coord_eqb k) stopped)) l = [].
+Proof.
+  induction l as [|x l IH]; intros stopped H; simpl; [reflexivity|].
+  assert (existsb (coord_eqb x) stopped = true) as ->.
+  { apply existsb_exists. exists x. split; [apply H; now left|apply coord_eqb_refl]. }
+  simpl. apply IH. intros k Hk. apply H. now right.
+Qed.
+
+(* no Configure binds a socket, and every started coordinator that has been stopped holds none: nothing is listening *)
+Lemma still_listening_all_stopped : forall c cfgd l, still_listening c cfgd l l = no_listener.
+Proof.
+  intros c cfgd l. unfold still_listening, no_listener.
+  rewrite (filter_stopped l l (fun k H => H)). simpl. rewrite app_nil_r.
+  induction cfgd as [|k r IH]; simpl; [reflexivity|exact IH].
+Qed.
+
 Lemma start_list_shape : forall o c todo st,
-  exists rc st', start_list o c todo st = Returned rc st' /\ (rc = 0 \/ rc = 1) /\
+  exists rc st', start_list o c todo st = Returned rc st' no_listener /\ (rc = 0 \/ rc = 1) /\
                  (exists mid, st' = st ++ mid /\ (todo <> [] -> mid <> []) /\ (rc = 0 -> mid = todo) /\
                               (forall k, In k mid -> In k todo)).
 Proof.
   intros o c todo. induction todo as [|k r IH]; intros st; simpl.
-  - exists 0, st. split; [reflexivity|]. split; [now left|]. exists []. rewrite app_nil_r.
+  - exists 0, st. rewrite still_listening_all_stopped. split; [reflexivity|]. split; [now left|]. exists []. rewrite app_nil_r.
     repeat split; auto; try (intros ? []).
   - destruct (start_coord o c k).
     + destruct (IH (st ++ [k])) as (rc & st' & E & Hrc & mid & -> & Hne & Hall & Hin).
@@ -224,13 +244,13 @@ Proof.
       exists (k :: mid). rewrite <- app_assoc. simpl. repeat split; auto; try discriminate.
       * intro H0. now rewrite (Hall H0).
       * intros x [<-|Hx]; [now left|right; now apply Hin].
-    + exists 1, (st ++ [k]). split; [reflexivity|]. split; [now right|]. exists [k].
+    + exists 1, (st ++ [k]). rewrite still_listening_all_stopped. split; [reflexivity|]. split; [now right|]. exists [k].
       repeat split; auto; try discriminate. intros x [<-|[]]. now left.
 Qed.
 
-Lemma start_list_not_refusal : forall o c, start_list o c (coordinators c) [] <> Returned 1 nothing_started.
+Lemma start_list_not_refusal : forall o c ls, start_list o c (coordinators c) [] <> Returned 1 nothing_started ls.
 Proof.
-  intros o c H.
+  intros o c ls H.
   destruct (start_list_shape o c (coordinators c) []) as (rc & st' & E & _ & mid & -> & Hne & _).
   rewrite E in H. inversion H. simpl in *. subst.
   apply Hne; [|reflexivity]. pose proof (coordinators_storage c) as Hs. intro E0. rewrite E0 in Hs. destruct Hs.
@@ -239,10 +259,11 @@ Qed.
 Lemma start_unfold : forall o c a,
   start o c a = match configure_all o c with
                 | None => start_list o c (coordinators c) []
-                | Some _ => Returned 1 nothing_started
+                | Some _ => Returned 1 nothing_started no_listener
                 end.
 Proof.
-  intros. unfold start, start_with, configure_coordinators, handler_fixed. destruct (configure_all o c); reflexivity.
+  intros. unfold start, start_with, configure_coordinators, handler_fixed.
+  destruct (configure_all o c); [rewrite still_listening_all_stopped|]; reflexivity.
 Qed.
 
 Lemma config_valid_unfold : forall o c a,
@@ -267,14 +288,31 @@ Proof. intros. apply context_independent. Qed.
 (* C19, refusal: a configuration violates a documented requirement exactly when Start returns 1 with nothing started —
    in particular without a panic leaving Start — from EVERY initial state of the application context. *)
 Theorem refuse_iff_invalid : forall o c a, order_ok o c ->
-  (requirements c <> [] <-> start o c a = Returned 1 nothing_started).
+  (requirements c <> [] <-> start o c a = Returned 1 nothing_started no_listener).
 Proof.
   intros o c a Hok. rewrite start_unfold. pose proof (configure_iff_valid o c Hok) as Hiff.
   destruct (configure_all o c) eqn:E.
   - split; [reflexivity|]. intros _ Hreq. apply Hiff in Hreq. discriminate.
   - split.
     + intro Hne. exfalso. apply Hne, Hiff. reflexivity.
-    + intro H. exfalso. exact (start_list_not_refusal o c H).
+    + intro H. exfalso. exact (start_list_not_refusal o c _ H).
+Qed.
+
+(* C19, listeners: whatever the configuration, the order and the initial context, no listener is open when Start returns
+   (refused: none was ever bound; accepted: the exit channel was closed / a subsystem failed to start, and everything
+   started has been stopped).  For a refused configuration this is part of refuse_iff_invalid; stated on its own: *)
+Theorem refused_opens_no_listener : forall o c a rc started ls, order_ok o c -> requirements c <> [] ->
+  start o c a = Returned rc started ls -> ls = no_listener /\ started = nothing_started /\ rc = 1.
+Proof.
+  intros o c a rc started ls Hok Hne H. apply (refuse_iff_invalid o c a Hok) in Hne. rewrite Hne in H.
+  inversion H. repeat split; reflexivity.
+Qed.
+
+Theorem no_listener_left_open : forall o c a rc started ls, start o c a = Returned rc started ls -> ls = no_listener.
+Proof.
+  intros o c a rc started ls H. rewrite start_unfold in H. destruct (configure_all o c).
+  - inversion H. reflexivity.
+  - destruct (start_list_shape o c (coordinators c) []) as (rc' & st' & E & _). rewrite E in H. inversion H. reflexivity.
 Qed.
 
 Theorem start_never_panics : forall o c a p, start o c a <> Panicked p.
@@ -306,7 +344,7 @@ Proof.
 Qed.
 
 Theorem valid_is_started : forall o c a, order_ok o c -> requirements c = [] ->
-  exists rc started, start o c a = Returned rc started /\ (rc = 0 \/ rc = 1) /\ started <> [] /\
+  exists rc started, start o c a = Returned rc started no_listener /\ (rc = 0 \/ rc = 1) /\ started <> [] /\
                      (forall k, In k started -> In k (coordinators c)) /\ (rc = 0 -> started = coordinators c).
 Proof.
   intros o c a Hok Hreq. rewrite start_unfold. apply (configure_iff_valid o c Hok) in Hreq. rewrite Hreq.
@@ -524,14 +562,14 @@ Definition ex_default_root : config := {|
    zookeeper coordinator's Start was entered *)
 Example ex_default_root_start_failure :
   requirements ex_default_root = [] /\
-  start (canonical_order ex_default_root) ex_default_root fresh_app = Returned 1 [CZookeeper] /\
+  start (canonical_order ex_default_root) ex_default_root fresh_app = Returned 1 [CZookeeper] no_listener /\
   config_valid (canonical_order ex_default_root) ex_default_root fresh_app = true.
 Proof. vm_compute. repeat split. Qed.
 
 Example ex_valid_accepted :
   requirements ex_valid = [] /\
   start (canonical_order ex_valid) ex_valid fresh_app
-    = Returned 0 [CZookeeper; CStorage; CEvaluator; CHttpserver; CNotifier; CCluster; CConsumer] /\
+    = Returned 0 [CZookeeper; CStorage; CEvaluator; CHttpserver; CNotifier; CCluster; CConsumer] no_listener /\
   config_valid (canonical_order ex_valid) ex_valid fresh_app = true /\
   app_after_history [(canonical_order ex_valid, ex_valid)] fresh_app = used_app.
 Proof. vm_compute. repeat split. Qed.
@@ -539,9 +577,9 @@ Proof. vm_compute. repeat split. Qed.
 (* refused from a fresh context AND from the context the valid example left behind *)
 Example ex_bad_regex_refused :
   requirements ex_bad_regex = [(StorageAllow, 1)] /\
-  start (canonical_order ex_bad_regex) ex_bad_regex fresh_app = Returned 1 nothing_started /\
+  start (canonical_order ex_bad_regex) ex_bad_regex fresh_app = Returned 1 nothing_started no_listener /\
   start (canonical_order ex_bad_regex) ex_bad_regex
-        (app_after_history [(canonical_order ex_valid, ex_valid)] fresh_app) = Returned 1 nothing_started /\
+        (app_after_history [(canonical_order ex_valid, ex_valid)] fresh_app) = Returned 1 nothing_started no_listener /\
   config_valid (canonical_order ex_bad_regex) ex_bad_regex used_app = false /\
   configured (canonical_order ex_bad_regex) ex_bad_regex = [CZookeeper; CStorage].
 Proof. vm_compute. repeat split. Qed.
@@ -549,7 +587,7 @@ Proof. vm_compute. repeat split. Qed.
 (* F10 witnesses: on the unchanged handler both kinds of invalid configuration leave Start by a panic. *)
 Theorem refuse_refuted :
   exists o c, order_ok o c /\ requirements c <> [] /\
-              forall a, start_old o c a <> Returned 1 nothing_started /\ exists p, start_old o c a = Panicked p.
+              forall a, start_old o c a <> Returned 1 nothing_started no_listener /\ exists p, start_old o c a = Panicked p.
 Proof.
   exists (canonical_order ex_bad_regex), ex_bad_regex. split; [apply canonical_order_ok|].
   split; [vm_compute; discriminate|]. intro a. split; [vm_compute; discriminate|].
@@ -558,7 +596,7 @@ Qed.
 
 Example refuse_refuted_error_value :
   start_old (canonical_order ex_bad_depth) ex_bad_depth fresh_app = Panicked (PanicError HandlerAssertion 1) /\
-  start (canonical_order ex_bad_depth) ex_bad_depth fresh_app = Returned 1 nothing_started.
+  start (canonical_order ex_bad_depth) ex_bad_depth fresh_app = Returned 1 nothing_started no_listener.
 Proof. vm_compute. split; reflexivity. Qed.
 
 (* ------------------------------------------------------------------------------------------------------------------ *)
@@ -575,7 +613,7 @@ Qed.
 
 (* ... and from a context whose flag is set it refuses NO configuration at all: subsystems are started. *)
 Theorem noreset_handler_never_refuses_used : forall o c,
-  start_with handler_noreset o c used_app <> Returned 1 nothing_started /\
+  start_with handler_noreset o c used_app <> Returned 1 nothing_started no_listener /\
   config_valid_with handler_noreset o c used_app = true.
 Proof.
   intros o c. unfold config_valid_with, start_with, configure_coordinators, handler_noreset, used_app. cbn [app_valid].
@@ -585,5 +623,15 @@ Qed.
 Example noreset_handler_accepts_invalid :
   requirements ex_bad_regex <> [] /\
   start_with handler_noreset (canonical_order ex_bad_regex) ex_bad_regex used_app
-    = Returned 0 [CZookeeper; CStorage; CEvaluator; CHttpserver; CNotifier; CCluster; CConsumer].
+    = Returned 0 [CZookeeper; CStorage; CEvaluator; CHttpserver; CNotifier; CCluster; CConsumer] no_listener.
 Proof. split; [vm_compute; discriminate | vm_compute; reflexivity]. Qed.
+
+(* the listening observable is not constantly empty: while the httpserver coordinator is started and not yet stopped its
+   listener (module 3 of ex_valid) is open; a Start that returned with it would be caught by no_listener_left_open *)
+Example listening_while_running :
+  still_listening ex_valid (coordinators ex_valid) [CZookeeper; CStorage; CEvaluator; CHttpserver] [CZookeeper; CStorage; CEvaluator]
+    = [3] /\
+  still_listening ex_valid (coordinators ex_valid) [CZookeeper; CStorage; CEvaluator; CHttpserver] [CZookeeper; CStorage; CEvaluator; CHttpserver]
+    = no_listener /\
+  listener_names ex_bad_depth = [3].
+Proof. vm_compute. repeat split. Qed.
